@@ -35,6 +35,23 @@ func genTwinPlan(seed uint64, tier string) *Plan {
 		for d := 0; d < 1+g.intn(2); d++ {
 			p.Ops = append(p.Ops, genDialogSnippet(g, c, li, g.intn(len(l.Backends)))...)
 		}
+		if g.chance(50) {
+			p.Ops = append(p.Ops, genSubscribeSnippet(g, c, li, g.intn(len(l.Backends)))...)
+		}
+	}
+	if g.chance(30) {
+		// short dialog timeout, answers that promise more under several header names, and a minute of silence before
+		// the last requests of each dialog: whatever lifetime the proxy derives from the answer, it derives it from
+		// every spelling of the header's name alike
+		c.DialogTimeout = 30
+		var out []Op
+		for i, op := range p.Ops {
+			if op.S["late"] == "1" && (i == 0 || p.Ops[i-1].S["late"] != "1") {
+				out = append(out, Op{Kind: "advance", ID: g.nextID(), Dur: int64(time.Duration(g.rng(40, 90)) * time.Second)})
+			}
+			out = append(out, op)
+		}
+		p.Ops = out
 	}
 	return p
 }
@@ -79,11 +96,32 @@ func genDialogSnippet(g *gen, c *Cfg, li int, bi int) []Op {
 	proxyVia := viaEntry("UDP", l.Addr, l.UDP, ";branch=z9hG4bK"+g.alnum(8, 12))
 	var ops []Op
 	ops = append(ops, mk("INVITE", 1, "<"+fromURI+">;tag="+fromTag, "<"+toURI+">", []string{uaVia}, uaIP, 5060, nil, "INVITE "+ruri+" SIP/2.0"))
-	ops = append(ops, mk("INVITE", 1, "<"+fromURI+">;tag="+fromTag, "<"+toURI+">;tag="+toTag, []string{proxyVia, uaVia}, beIP, bePort, nil, "SIP/2.0 200 OK"))
+	var promise []sipwire.Header
+	switch g.intn(4) {
+	case 0:
+		promise = []sipwire.Header{{Name: "Session-Expires", Value: "1800;refresher=uac"}, {Name: "Supported", Value: "timer"}}
+	case 1:
+		promise = []sipwire.Header{{Name: "Expires", Value: "1800"}}
+	case 2:
+		promise = []sipwire.Header{{Name: "Session-Expires", Value: "1800"}, {Name: "Expires", Value: "600"}}
+	}
+	ops = append(ops, mk("INVITE", 1, "<"+fromURI+">;tag="+fromTag, "<"+toURI+">;tag="+toTag, []string{proxyVia, uaVia}, beIP, bePort, promise, "SIP/2.0 200 OK"))
 	methods := []string{"ACK", "INFO", "UPDATE", "BYE"}
 	for i, m := range methods {
 		if m != "ACK" && m != "BYE" && g.chance(50) {
 			continue
+		}
+		if m == "BYE" || m == "UPDATE" && g.chance(50) {
+			defer func(k int) {
+				if k < len(ops) {
+					for j := k; j < len(ops); j++ {
+						if ops[j].S == nil {
+							ops[j].S = map[string]string{}
+						}
+						ops[j].S["late"] = "1"
+					}
+				}
+			}(len(ops))
 		}
 		v := viaEntry("UDP", uaIP, 5060, ";branch=z9hG4bK"+g.alnum(6, 10))
 		if g.chance(40) && m != "ACK" {
@@ -92,6 +130,55 @@ func genDialogSnippet(g *gen, c *Cfg, li int, bi int) []Op {
 		} else {
 			ops = append(ops, mk(m, 2+i, "<"+fromURI+">;tag="+fromTag, "<"+toURI+">;tag="+toTag, []string{v}, uaIP, 5060, nil, m+" "+ruri+" SIP/2.0"))
 		}
+	}
+	return ops
+}
+
+// genSubscribeSnippet: an outside server registers (the proxy learns it), backend bi subscribes to it through the
+// proxy, the server's 200 comes back (binding the dialog to the subscriber), then the server sends NOTIFYs.
+func genSubscribeSnippet(g *gen, c *Cfg, li int, bi int) []Op {
+	l := c.Listens[li]
+	be := l.Backends[bi]
+	if strings.HasPrefix(be, "tcp") {
+		return nil
+	}
+	beAddr := be[strings.Index(be, "://")+3:]
+	beIP, bePort := udpAddr(beAddr).IP.String(), udpAddr(beAddr).Port
+	match, _ := svcURIs(g, c.Name)
+	svc := match[g.intn(len(match))]
+	srvIP := topo.uas[g.intn(len(topo.uas))]
+	callID := "sub-" + g.alnum(6, 10)
+	fromTag, toTag := g.tagValue(), g.tagValue()
+	subscriber := "sip:" + g.user0() + "@svc.example.com"
+	notifier := "sip:" + g.user0() + "@presence.test"
+	mk := func(start string, cseq string, from, to string, vias []string, src string, srcPort int, extra []sipwire.Header) Op {
+		id := g.nextID()
+		b := &sipwire.Builder{Start: start}
+		for _, v := range vias {
+			b.Add("Via", v)
+		}
+		b.Add("From", from)
+		b.Add("To", to)
+		b.Add("Call-ID", callID)
+		b.Add("CSeq", cseq)
+		b.Add("X-Sim-Id", id)
+		for _, h := range extra {
+			b.Add(h.Name, h.Value)
+		}
+		return Op{Kind: "msg", ID: id, Proto: "udp", SrcIP: src, SrcPort: srcPort, Listen: li, Data: b.Bytes(), Settle: true}
+	}
+	srvVia := func() string { return viaEntry("UDP", srvIP, 5060, ";branch=z9hG4bK"+g.alnum(6, 10)) }
+	beVia := viaEntry("UDP", beIP, bePort, ";branch=z9hG4bK"+g.alnum(6, 10))
+	proxyVia := viaEntry("UDP", l.Addr, l.UDP, ";branch=z9hG4bK"+g.alnum(8, 12))
+	var ops []Op
+	ops = append(ops, mk("REGISTER "+svc+" SIP/2.0", "1 REGISTER", "<"+notifier+">;tag="+g.tagValue(), "<"+notifier+">", []string{srvVia()}, srvIP, 5060, nil))
+	ops = append(ops, mk("SUBSCRIBE sip:"+srvIP+":5060 SIP/2.0", "1 SUBSCRIBE", "<"+subscriber+">;tag="+fromTag, "<"+notifier+">", []string{beVia}, beIP, bePort,
+		[]sipwire.Header{{Name: "Route", Value: "<sip:" + srvIP + ":5060;lr>"}, {Name: "Event", Value: "presence"}}))
+	ops = append(ops, mk("SIP/2.0 200 OK", "1 SUBSCRIBE", "<"+subscriber+">;tag="+fromTag, "<"+notifier+">;tag="+toTag, []string{proxyVia, beVia}, srvIP, 5060,
+		[]sipwire.Header{{Name: "Expires", Value: "3600"}}))
+	for k := 0; k < 1+g.intn(2); k++ {
+		ops = append(ops, mk("NOTIFY "+svc+" SIP/2.0", fmt.Sprintf("%d NOTIFY", 2+k), "<"+notifier+">;tag="+toTag, "<"+subscriber+">;tag="+fromTag, []string{srvVia()}, srvIP, 5060,
+			[]sipwire.Header{{Name: "Event", Value: "presence"}, {Name: "Subscription-State", Value: "active;expires=3000"}}))
 	}
 	return ops
 }
@@ -200,6 +287,10 @@ func runTwinWorld(t *testing.T, p *Plan, transform bool, tape []uint32, replay b
 		st := newRelayState(w, &q.Cfg)
 		for i := range q.Ops {
 			op := q.Ops[i]
+			if op.Kind == "advance" {
+				w.K.Advance(time.Duration(op.Dur))
+				continue
+			}
 			if op.Kind != "msg" {
 				continue
 			}
